@@ -43,6 +43,21 @@ CHECKS = {
    text="One breadth-first search per initial array (5 GeoBox kinds incl. rotated, sheared, GCP x 4 shapes incl. single row/column/pixel x 4 CRS settings x 3 dimension layouts x numpy/dask): transitions apply real xarray operations (5 slicings per axis incl. strided and reversed, joint slicings, isel on time/band, +1, *2.0, astype, deep copy, pickle round trip, compute); states are deduplicated on (surviving original rows, columns, dims, dtype, backend); in every new state the recovered .odc.geobox must exist, have the right shape and CRS, map every remaining pixel centre to the world location it had in the original GeoBox, and agree with the coordinate labels. Initial round trip must give an equal GeoBox. Reprojection: complete product of 6 CRS pairs x DataArray/Dataset x CRS/GeoBox target x backend x layout x CRS-coordinate name: recovered GeoBox equals the destination, no stale spatial attribute or stale CRS coordinate survives, grid_mapping points at the destination CRS, non-spatial attributes and non-geo variables are kept.",
    note="Depth 1-3 (quick) / 3-4 (thorough). Locations compared at pixel centres; R tolerance 1e-9 for non-dyadic affines, 1e-6 px for GCP. Without a CRS single-row/column arrays are outside the domain (as the property states).",
    design="4/C09", thorough=True),
+ "C01": dict(level="exploration", engine="E1",
+   technique="bounded-exhaustive enumeration: every combining operation (explicit list + discovery by signature) x every ordered CRS-tag tuple x every geometry-kind tuple, vs shapely on the raw shapes",
+   text="34 combining operations (18 binary Geometry operations incl. operators and split, multigeom/common_crs/unary_union/unary_intersection, BoundingBox &,|, bbox_union/intersection, GeoBox &,|, overlap_roi, snap_to, pixel_translation, bounding_box_in_pixel_domain, conservative union/intersection), found both from an explicit list and by a signature rule that sweeps newly added annotated operations automatically, are executed on all ordered pairs (n-ary: tuples of length 2-3 with the odd one at each position, list and generator input) of 12 CRS tags (none, 5 spellings each of EPSG:4326 and EPSG:3857, EPSG:32633) and all ordered pairs of 10 geometry kinds. Different classes => ValueError and nothing returned; same class => identical to the shapely call on the raw shapes (bool / WKB / exception type) and tagged with the operands' CRS. A fresh-cache slice repeats representative operations for every construction order with emptied CRS caches.",
+   note="Equivalence classes by EPSG code. Cases where the raw shapely call itself raises a non-ValueError before the mismatching operand is reached (lazy reduce in unary_intersection on collection/empty operands) are counted as observations, not violations: nothing is returned and nothing mixed. GeoBox grid arithmetic itself is C16.",
+   design="4/C01", thorough=True),
+ "C02": dict(level="exploration", engine="E1+E2",
+   technique="bounded-exhaustive enumeration of GeoBox operations against a reference model (shape + pixel/world map per operation) + BFS chains of operations with state deduplication",
+   text="For 13 affines (north-up, mirrored in x/y/both, non-square, 90 deg, sheared on a dyadic alphabet; 0.1 deg, 30 m UTM, 1/3, 30 deg rotations, shear on a realistic one) x 19 shapes incl. 1xN/Nx1 x CRS {none, 4326, 3857}: every slice pair with indices in [-n,n], every integer index, and full parameter menus of pad, pad_wh, crop/expand, translate_pix, flips, neighbours, centre pixel, rotate, zoom_out, zoom_to (shape/int/resolution), scaled_down_geobox, buffered, pixel- and world-side affine products are applied; the result must have the shape the docstring contract prescribes, the same CRS, and every corner/centre pixel must lie where the contract's pixel map (or world map) puts it relative to the original; covering operations must cover. For every GeoBox: pix2wld/wld2pix inverse, footprint = images of the four corners, bounding box of the footprint, coordinate labels = pixel centres, resolution. Breadth-first chains of 20 operations (depth 2 quick / 3 thorough) from 18 start boxes apply operations to non-initial states. GCP GeoBoxes from exactly affine and from quadratic control points (3/4/9/16 points) through crop/pad/zoom.",
+   note="== on dyadic affines, 1e-9*(|coordinate|+pixel) elsewhere; GCP: exact-affine control points to 1e-9, quadratic ones up to a multiple of the measured fit residual (inverse: 5% of the non-affine displacement).",
+   design="4/C02", thorough=True),
+ "C20": dict(level="exploration", engine="E1",
+   technique="bounded-exhaustive enumeration of float/integer alphabets around every tolerance, sign change and half-way point, judged in exact rational arithmetic",
+   text="About 1.1 million cases (2.6 million thorough) over 12 slices: near-integer helpers on k+f lattices incl. +-1 ulp around each tolerance; align helpers on [-40,5000] and 2^k+d up to k=32 x align 1..20; snap_grid on a dyadic lattice (exact ==) and the realistic C08 alphabet (rational oracle); snap_scale/snap_affine around their tolerances incl. idempotence and rotated inputs; decompose_rws on all invertible 2x2 matrices over 8 values plus rotation x shear x scale; affine_from_pts and Poly2d fits (3-point, 2xk, kxm grids incl. odd grids whose centre is the centroid) with all evaluation forms and input transforms; affine_from_axis; Bin1D on dyadic (edges exact) and realistic (strictly inside) points incl. from_sample_bin. Oracles use fractions.Fraction of the binary64 inputs.",
+   note="At exact equality with a tolerance either decision is accepted; ties at +-0.5 may go either way; align_*_pow2 only for the stated range k<=32.",
+   design="4/C20", thorough=True),
 }
 NOT_YET = "check not built yet in this session (design in DESIGN.md section 4); no claim made"
 
